@@ -92,7 +92,7 @@ def main():
         os.makedirs(d, exist_ok=True)
         shutil.copy(patch, os.path.join(d, "patch.diff"))
         shutil.copy(demo, os.path.join(d, os.path.basename(demo).replace(f"demo{a.n}", "demo")))
-        meta_out = {"property": a.prop, "summary": meta.get("summary"), "breaks": meta.get("breaks"), "needs": meta.get("needs"),
+        meta_out = {"property": (meta.get("property") if str(meta.get("property", "")).startswith("C") else a.prop), "summary": meta.get("summary"), "breaks": meta.get("breaks"), "needs": meta.get("needs"),
                     "demo_location": meta.get("demo_location"), "author_verified": meta.get("verified"),
                     "confirmed_by_us": {k: report[k] for k in ("demo_on_clean", "applies_and_builds", "suite_with_change", "demo_with_change")},
                     "our_checks": {c: r["verdict"] for c, r in report["checks"].items() if isinstance(r, dict)},
